@@ -559,6 +559,24 @@ static int arr_alloc(int i, size_t nm)
     count_fail("array.alloc");
     return 0;
 }
+static char a_ext2[6 * 4];
+/* set() onto any object, occupied or not: "reset, then allocate" like alloc */
+static int arr_set(int i, void *buf, size_t nm)
+{
+    CALL_BEGIN("array.set", "a%ld nm %ld", i, nm);
+    cstl_array_set(&AR[i], buf, nm, 4);
+    if (cstl_array_data(&AR[i]) == NULL) {
+        require_fired("array.set", "an empty object");
+        VRT_CHECK(cstl_array_size(&AR[i]) == 0, "faults.array.set.failed-not-empty", "failed set left size %zu with no buffer", cstl_array_size(&AR[i]));
+        VRT_CHECK(VRT_ABORTS((void)cstl_array_at(&AR[i], 0)), "faults.array.set.failed-at-no-abort", "at(0) of an object left empty by a failed set did not abort");
+        count_fail("array.set");
+        return 0;
+    }
+    require_not_fired("array.set", "succeeded");
+    VRT_CHECK(cstl_array_data(&AR[i]) == buf && cstl_array_size(&AR[i]) == nm, "faults.array.set", "set did not install the buffer");
+    arr_touch(&AR[i]);
+    return 1;
+}
 static void script_arrays(void)
 {
     int i, have;
@@ -585,6 +603,11 @@ static void script_arrays(void)
     if (have) { VRT_OP0("array.slice", "a2[1,9) in place"); cstl_array_slice(&AR[2], 1, 9, &AR[2]); arr_touch(&AR[2]); }
     arr_alloc(2, 4);        /* alloc onto an in-place slice with non-zero offset */
     arr_alloc(0, 7); arr_alloc(1, 0); arr_alloc(3, 2);
+    /* set() onto objects that currently hold an allocation / are a slice with offset / wrap an external buffer */
+    arr_set(0, a_ext2, 6);
+    if (arr_alloc(1, 9)) { VRT_OP0("array.slice", "a1[3,8) in place"); cstl_array_slice(&AR[1], 3, 8, &AR[1]); }
+    arr_set(1, a_ext, 5);
+    arr_set(0, a_ext, 5);
 }
 static void epilogue_arrays(void)
 {
@@ -593,7 +616,7 @@ static void epilogue_arrays(void)
     arr_alloc(2, 5);
     VRT_OP0("array.release", "a3");
     cstl_array_release(&AR[3], &b);
-    VRT_CHECK(b == NULL || b == a_ext, "faults.array.release", "release returned a foreign buffer");
+    VRT_CHECK(b == NULL || b == a_ext || b == a_ext2, "faults.array.release", "release returned a foreign buffer");
     for (i = 0; i < 4; i++) cstl_array_reset(&AR[i]);
 }
 
